@@ -300,6 +300,47 @@ func checkC14(c *Ctx) *report.Result {
 		bad = append(bad, fmt.Sprintf("... %d states in all", nbad))
 	}
 	r.Ob("Q-table", nbad == 0, "request table over the documented schedule", where, strings.Join(bad, "; "))
+	// the coincidence request is made exactly when LYC equals the line that starts: for every line start and LYC fixed to
+	// that line, its neighbours, 0, 153 and values no line ever has (154, 200, 255), the request guarded by the
+	// coincidence enable alone is present iff LYC is that line
+	if ai.LeafTypeAt(m.PPU.T, ".lyc") == nil {
+		r.Fail("unresolved", "Q-table", "LYC cell", where, "the PPU has no lyc field (anchor)")
+	} else {
+		pm := *m
+		var badL []string
+		nl := 0
+		for _, s := range states {
+			if s.T%114 != 0 {
+				continue
+			}
+			line := ppuDocNext(s).LY
+			for _, v := range []int64{line, line - 1, line + 1, 0, 153, 154, 200, 255} {
+				if v < 0 || v > 255 {
+					continue
+				}
+				vv := v
+				pm.lycConst = &vv
+				st := pm.step(s)
+				nl++
+				got := 0
+				for _, q := range st.Reqs {
+					if q.Kind == "stat" && len(q.Guards) == 1 && q.Guards[0] == coin {
+						got++
+					}
+				}
+				want := 0
+				if v == line {
+					want = 1
+				}
+				if got != want && len(badL) < 4 {
+					badL = append(badL, fmt.Sprintf("from {%s} (line %d starts) with LYC=%d: %d coincidence requests, documented %d", s, line, v, got, want))
+				}
+			}
+		}
+		pm.lycConst = nil
+		r.Ob("Q-table", len(badL) == 0 && nl > 1000, "the coincidence request is made iff LYC equals the starting line (every line start x 8 LYC values)", where, strings.Join(badL, "; "))
+		r.Instances["Q-table"] += nl
+	}
 	r.Ob("Q-table", vblanks == 1, "exactly one state of the steady-state frame requests VBlank", where, fmt.Sprintf("%d states", vblanks))
 	r.Instances["Q-table"] += len(states)
 	r.Sample(map[string]interface{}{"rule": "Q-table", "states": len(states), "requests_seen": nreq, "line144": render(m.step(ppuState{T: 144 * 114, Mode: 0, LY: 143}).Reqs)})
